@@ -337,6 +337,7 @@ type Result struct {
 	Err      bool
 	Effects  int
 	Attempts int // southbound Set calls made, whatever the answer
+	Doc      []byte // the document the model plugin was asked to validate in this invocation (nil: none)
 	Panic    string
 }
 
@@ -392,12 +393,19 @@ func (s *Sys) Run(id string, o RunOpts) (res Result) {
 		}
 		return nil
 	}
+	nDocs := len(s.Plugins.Docs)
 	defer func() {
 		if r := recover(); r != nil {
 			res.Panic = fmt.Sprint(r)
 		}
 		res.Effects = s.inj.n
 		res.Attempts = sent
+		if len(s.Plugins.Docs) > nDocs {
+			res.Doc = s.Plugins.Docs[len(s.Plugins.Docs)-1]
+		}
+		if len(s.Plugins.Docs) > 64 {
+			s.Plugins.Docs = nil
+		}
 	}()
 	f := strings.Split(id, ":")
 	var r controller.Result
